@@ -9,6 +9,7 @@
 import TypedpyModel.Drive.Wire
 import TypedpyModel.Sem.SchemaToCode
 import TypedpyModel.Sem.SchemaEmit
+import TypedpyModel.Spec.CodeExact
 namespace Typedpy.Drive.SchemaCode
 open Lean (Json)
 open Typedpy Typedpy.Wire
@@ -268,6 +269,33 @@ def run (j : Json) : Except String Json := do
   let mangled (n : String) : Bool := n.startsWith "__" && !n.endsWith "__"
   let nameIssue := targets.any (fun n => !isPyName X n || PyGram.forbiddenTarget n.toList || mangled n)
     || plainNames.any (fun n => !isPyName X n || mangled n)
+  -- exactness models on this case's documents: for a property in the exact scalar sub-fragment and a value `v`,
+  -- "the generated field accepts v" (Deser + validate on schemaToDecl) and "the validator admits v" (jsV on scalarDoc)
+  let reTab : List ((String × String) × (Bool × Bool)) ← match optField j "reTable" with
+    | none => pure []
+    | some x => (← x.getArr?).toList.mapM fun e => do
+      let p ← e.getArr?
+      pure (((← p[0]!.getStr?), (← p[1]!.getStr?)), ((← p[2]!.getBool?), (← p[3]!.getBool?)))
+  let Ore : Oracles := { reMatch := fun p t => match reTab.find? (fun e => e.1 == (p, t)) with
+    | some e => e.2.1 | none => false }
+  let Sre : String → String → Bool := fun p t => match reTab.find? (fun e => e.1 == (p, t)) with
+    | some e => e.2.2 | none => false
+  let fieldDocs : List (String × PyVal) ← match optField j "fieldDocs" with
+    | none => pure []
+    | some x => (← x.getArr?).toList.mapM fun e => do
+      let p ← e.getArr?
+      pure ((← p[0]!.getStr?), (← valOfJson p[1]!))
+  let fieldVerdicts : List Json := fieldDocs.map fun (n, v) =>
+    match s with
+    | .obj props defaults _ _ =>
+      (match lookup n props with
+       | some sp =>
+         if CodeExact.exactSchema sp && (lookup n defaults).isNone then
+           Json.arr #[Json.bool (CodeExact.acceptsWith Ore (schemaToDecl (envResolver []) sp) v),
+                      Json.bool (Sch.jsV CodeExact.R0 Sre (CodeExact.scalarDoc true sp) v)]
+         else Json.null
+       | none => Json.null)
+    | _ => Json.null
   let phase :=
     if !crash.isEmpty then "gen"
     else if recog == .reject then "compile"
@@ -291,6 +319,7 @@ def run (j : Json) : Except String Json := do
     ("recogReal", match recogReal with | some v => Json.str v.name | none => Json.null),
     ("mutantVerdicts", strs mutantVerdicts),
     ("oracleOk", Json.bool oracleOk),
+    ("fieldVerdicts", Json.arr fieldVerdicts.toArray),
     ("srcOk", Json.bool srcOk), ("clean", Json.bool clean), ("nestOk", Json.bool nestOk),
     ("nameIssue", Json.bool nameIssue),
     ("refsOrdered", Json.bool ordered),
